@@ -32,6 +32,7 @@ import SpecterModel.C44.Drv
 import SpecterModel.C45.Drv
 import SpecterModel.C46.Drv
 import SpecterModel.C47.Drv
+import SpecterModel.C48.Drv
 import SpecterModel.C49.Drv
 import SpecterModel.C50.Drv
 import SpecterModel.C51.Drv
@@ -72,6 +73,7 @@ def main (args : List String) : IO UInt32 := do
   | ["C45"] => do Specter.C45.main; return 0
   | ["C46"] => do Specter.C46.main; return 0
   | ["C47"] => do Specter.C47.main; return 0
+  | ["C48"] => do Specter.C48.main; return 0
   | ["C49"] => do Specter.C49.main; return 0
   | ["C50"] => do Specter.C50.main; return 0
   | ["C51"] => do Specter.C51.main; return 0
